@@ -428,6 +428,28 @@ func (p c04) traced(c *core.Ctx) {
 		// component's early reference may then arrive while it is being initialised)
 		c.Count("init_lookups", AddInitLookups(c.Rng, sc, 0.3))
 	}
+	if c.Index%3 == 1 {
+		// a post-processor that resolves a collaborator through the factory while a component is being
+		// instantiated / populated (before or between the container's own steps)
+		lp := &world.LookupPP{Plan: map[string]string{}, When: []string{"after-inst", "properties", "before"}[c.Rng.Intn(3)]}
+		adj := sc.NamedAdj()
+		for i := range sc.Nodes {
+			if c.Rng.Intn(3) != 0 {
+				continue
+			}
+			target := c.Rng.Intn(len(sc.Nodes))
+			for h := range adj { // preferably a component that wires this one back
+				for _, t := range adj[h] {
+					if t == i && h != i && c.Rng.Intn(2) == 0 {
+						target = h
+					}
+				}
+			}
+			lp.Plan[sc.Nodes[i].DisplayName()] = sc.Nodes[target].DisplayName()
+		}
+		extra = append(extra, lp)
+		c.Count("post_processor_lookups", len(lp.Plan))
+	}
 	if c.Index%3 == 2 {
 		// substituting post-processor (early references are wrappers) on an interface-only graph
 		sc = RandomGraph(c.Rng, GraphOpts{MinN: 2, MaxN: 7, Types: plainAB, PCycle: 1, Chords: 2, ByTypeSlice: 0.2, OnlyIface: true, PUnnamed: 0.3})
